@@ -51,6 +51,7 @@ def line_funcs():
     M = ZODB.MappingStorage.MappingStorage
     C = ZODB.Connection.Connection
     return [A.poll_invalidations, A._invalidate, A.tpc_finish, A.load, ZODB.mvccadapter.MVCCAdapter._invalidate_finish,
+            ZODB.mvccadapter.UndoAdapterInstance.tpc_finish,
             FS.tpc_finish, FS._finish, FS._finish_finish, FS.loadBefore, FS.store,
             M.__dict__['tpc_finish'], M.__dict__['loadBefore'], M.__dict__['store'],
             C.newTransaction, C.tpc_finish, C.setstate]
@@ -62,7 +63,7 @@ def run_threads(case, prop, oracles):
     clock.install()
     clock.reset()
     d = newdir()
-    tr = threadprog.ThreadRun(case['kind'], d, prehistory=2 if case.get('packer') is not None else 0, warm=case.get('warm', True))
+    tr = threadprog.ThreadRun(case['kind'], d, prehistory=2 if case.get('packer') is not None or any(r == 'undoer' for r, _ in case['programs']) else 0, warm=case.get('warm', True))
     try:
         threads = []
         for i, (role, prog) in enumerate(case['programs']):
@@ -78,6 +79,7 @@ def run_threads(case, prop, oracles):
         if any('tpc_finish' in p or 'poll_invalidations' in p or '_finish' in p for p in s.preempt_points):
             out.label('preempted-inside-finish-or-poll')
         from ZODB.POSException import ConflictError
+        threadprog.tolerate_pack_failed_by_undo(s, tr, out)
         if not threadprog.thread_problems(s, out, prop, allowed=(ConflictError,)):
             for o in list(oracles) + [threadprog.final_reads_oracle]:
                 if not out.failures:
@@ -91,7 +93,8 @@ def run_threads(case, prop, oracles):
 def strategy(tier, weights='mixed'):
     n = 25 if tier == 'quick' else 50
     seq = _seq_strategy(n, weights)
-    roles = ['committer', 'committer', 'reader'] if weights == 'mixed' else ['committer']
+    # (an undoer is a committer whose transaction is written by the storage's undo and announced by the undo adapter)
+    roles = ['committer', 'committer', 'reader', 'reader', 'undoer'] if weights == 'mixed' else ['committer']
     return st.one_of(seq, seq, thread_strategy(roles), thread_strategy(roles))
 
 
